@@ -144,6 +144,7 @@ type runConfig struct {
 	workers  int
 	verbose  bool
 	only     string
+	dump     string
 }
 
 type funcReport struct {
@@ -327,6 +328,9 @@ func solveAll(obls []*Obligation, cfg *runConfig) []*OblResult {
 			defer wg.Done()
 			defer func() { <-sem }()
 			text := o.smtText(nil)
+			if cfg.dump != "" && strings.Contains(o.Name, cfg.dump) {
+				os.WriteFile("/tmp/govc-dump-"+sanitize(o.Name)+".smt2", []byte(text), 0o644)
+			}
 			to := cfg.timeout
 			if o.Cover && to > 5 {
 				to = 5
@@ -351,6 +355,9 @@ func cmdCheck(args []string) {
 			cfg.only = args[i]
 		case "-v":
 			cfg.verbose = true
+		case "--dump":
+			i++
+			cfg.dump = args[i]
 		case "--replay":
 			i++
 			cmdReplayFile(cfg.prop, args[i])
